@@ -91,6 +91,8 @@ LIBM_AS_INTR = {}
 for _n in ("sqrt", "fabs", "ceil", "floor", "trunc", "rint", "nearbyint", "round", "copysign", "fma"):
     LIBM_AS_INTR[_n] = "llvm." + _n
     LIBM_AS_INTR[_n + "f"] = "llvm." + _n
+# nearbyint and rint return the same value (they differ only in raising FE_INEXACT)
+LIBM_AS_INTR["nearbyint"] = LIBM_AS_INTR["nearbyintf"] = "llvm.rint"
 
 
 class Interp:
@@ -501,6 +503,8 @@ class Interp:
             return T.concat(out)
         if base == "llvm.ctpop":
             return T.concat([T.ctpop(eb, x) for x in self.lanes(args[0], n, eb)])
+        if base == "llvm.nearbyint":
+            base = "llvm.rint"
         if base in LANEWISE_INTR:
             k = LANEWISE_INTR[base]
             ls = [self.lanes(a, n, eb) for a in args[:k]]
